@@ -99,6 +99,7 @@ fn replay_filter(beh: &Value) -> Value {
         _ => "AATCC",
     };
     let want = beh["ords"].as_array().cloned().unwrap_or_default();
+    let mut drift = false;
     for rc in [false, true] {
         let reads: Vec<Value> = beh["obs"]
             .as_array()
@@ -116,11 +117,24 @@ fn replay_filter(beh: &Value) -> Value {
             return verdict("filter", false, "panic", beh["ords"].clone(), ev);
         }
         let gotb: Vec<Value> = ev["obs"].as_array().unwrap().iter().map(|o| json!(o["ord"].as_i64() == Some(0))).collect();
+        // The property (C12) speaks about the k-mers that end up kept: exactly those sighted at least minc times.
+        // On which sighting the filter lets a k-mer through is implementation-shaped: a difference there is drift.
+        let minc = beh["minc"].as_u64().unwrap_or(1) as usize;
+        let names: Vec<&str> = beh["obs"].as_array().unwrap().iter().map(|x| x.as_str().unwrap()).collect();
+        let mut kept_want: Vec<&str> = names.iter().cloned().filter(|n| names.iter().filter(|m| *m == n).count() >= minc).collect();
+        kept_want.sort();
+        kept_want.dedup();
+        let mut kept_got: Vec<&str> = names.iter().zip(gotb.iter()).filter(|(_, b)| **b == json!(true)).map(|(n, _)| *n).collect();
+        kept_got.sort();
+        kept_got.dedup();
+        if kept_got != kept_want {
+            return verdict("filter", false, if rc { "kept k-mers are not those seen min-count times (strands merged)" } else { "kept k-mers are not those seen min-count times" }, json!(kept_want), json!(kept_got));
+        }
         if gotb != want {
-            return verdict("filter", false, if rc { "pass/fail sequence differs (strands merged)" } else { "pass/fail sequence differs" }, json!(want), json!(gotb));
+            drift = true;
         }
     }
-    verdict("filter", true, "", Value::Null, Value::Null)
+    json!({"ok": true, "kind": "filter", "drift": drift})
 }
 
 /// Table history: {table, steps:[{do:..}], expect:[projection after each step]}
